@@ -873,7 +873,10 @@ func wtrScenarios(seed int64, nRandom int) []Scenario {
 				ops = []rdOp{}
 			}
 			raw := c.Stream
-			if len(raw) > 4000 { // a long stream is logged by its head only (enough for the reference parser to see the frame that is refused)
+			// a very long stream is logged by its head only (enough for the reference parser to see the frame that is refused); streams
+			// of several frames - up to four frames of up to 2 000 bytes in the well-formed cases - are logged in full: the reference
+			// parser must see every header
+			if len(raw) > 20000 {
 				raw = raw[:64]
 			}
 			rec.Log("rd.case", "raw", ints(raw), "rawLen", len(c.Stream), "consumed", consumed, "limit", c.Limit, "errAt", c.ErrAt, "pattern", c.Pattern,
